@@ -13,14 +13,19 @@ import (
 	"net/http"
 	"os"
 	"path/filepath"
+	"reflect"
 	"regexp"
 	"runtime/debug"
 	"strconv"
 	"strings"
 	"sync"
 	"time"
+	"unsafe"
 
+	"github.com/fsnotify/fsnotify"
 	"github.com/rs/zerolog"
+	"go.uber.org/fx"
+	"gopkg.in/yaml.v3"
 
 	"github.com/dadrus/heimdall/internal/config"
 	"github.com/dadrus/heimdall/internal/keyholder"
@@ -42,6 +47,13 @@ type logTap struct {
 
 	recovered     int
 	lastRecovered string
+	watcherErrs   int // "Config watcher error received" statements of the secrets watcher
+}
+
+func (t *logTap) watcherErrors() int {
+	t.mu.Lock()
+	defer t.mu.Unlock()
+	return t.watcherErrs
 }
 
 func (t *logTap) recoveredPanics() (int, string) {
@@ -101,6 +113,10 @@ func (t *logTap) Write(p []byte) (int, error) {
 		t.mu.Lock()
 		t.recovered++
 		t.lastRecovered = trunc(logField(s, "message")+logField(s, "short_message"), 160)
+		t.mu.Unlock()
+	case strings.Contains(s, "Config watcher error received"):
+		t.mu.Lock()
+		t.watcherErrs++
 		t.mu.Unlock()
 	case strings.Contains(s, "Failed to apply rule set changes"):
 		f := logField(s, "_src")
@@ -218,9 +234,13 @@ func (s *rawServer) handle(c net.Conn) {
 
 func (s *rawServer) set(target string, sc script) { s.mu.Lock(); s.scripts[target] = sc; s.mu.Unlock() }
 func (s *rawServer) reset(target string)          { s.mu.Lock(); delete(s.scripts, target); s.mu.Unlock() }
-func (s *rawServer) hitCount(target string) int   { s.mu.Lock(); defer s.mu.Unlock(); return s.hits[target] }
-func (s *rawServer) sigInput() string             { s.mu.Lock(); defer s.mu.Unlock(); return s.lastSig }
-func (s *rawServer) clearSig()                    { s.mu.Lock(); s.lastSig = ""; s.mu.Unlock() }
+func (s *rawServer) hitCount(target string) int {
+	s.mu.Lock()
+	defer s.mu.Unlock()
+	return s.hits[target]
+}
+func (s *rawServer) sigInput() string { s.mu.Lock(); defer s.mu.Unlock(); return s.lastSig }
+func (s *rawServer) clearSig()        { s.mu.Lock(); s.lastSig = ""; s.mu.Unlock() }
 
 // ---- the child's world ----------------------------------------------------------------------------
 
@@ -243,6 +263,7 @@ type env struct {
 	httpc   *http.Client
 	ks      map[string]*ksState
 	trustP  string
+	secretW watcher.Watcher // the secrets watcher all key stores are registered with
 
 	rulesDir, fileA, fileB string
 	ruleCur                []byte
@@ -344,7 +365,7 @@ func newEnv(dir string, corpus map[string][]byte) (_ *env, err error) {
 		logger = logger.Level(zerolog.DebugLevel)
 	}
 	S := e.srv.URL
-	e.a, err = app.New(app.Options{Service: app.SvcDecision, Logger: &logger, Mutate: func(c *config.Configuration) {
+	e.a, err = app.New(app.Options{Service: app.SvcDecision, Logger: &logger, Fx: []fx.Option{fx.Populate(&e.secretW)}, Mutate: func(c *config.Configuration) {
 		c.SecretsReloadEnabled = true
 		c.Providers.FileSystem = map[string]any{"src": e.rulesDir, "watch": true}
 		c.Serve.Management.TLS = &config.TLS{KeyStore: config.KeyStore{Path: e.ks[kTLS].path}}
@@ -662,7 +683,7 @@ func (e *env) writeKS(st *ksState, in *inputSpec, idx int, data []byte, stepName
 					res.PrevChecks++
 				} else {
 					res.Problems = append(res.Problems, problem{Sig: "previous-state-lost:" + st.kind,
-						What: fmt.Sprintf("heimdall logged a rejected reload of the %s key store, but the previously loaded key material (%s) is no longer in effect (observed: %q %s %s)", st.kind, st.id, id, state, detail),
+						What:   fmt.Sprintf("heimdall logged a rejected reload of the %s key store, but the previously loaded key material (%s) is no longer in effect (observed: %q %s %s)", st.kind, st.id, id, state, detail),
 						Detail: map[string]any{"step": j.Step, "rejected_content": witness(s.after), "reject_reason": why, "previous_id": st.id, "observed_id": id, "probe": state + " " + detail}})
 					st.id = ""
 				}
@@ -679,9 +700,71 @@ func (e *env) writeKS(st *ksState, in *inputSpec, idx int, data []byte, stepName
 	return last, true
 }
 
+// watcherErrorChan digs the Errors channel of the fsnotify instance out of heimdall's secrets watcher (a private
+// field; the harness is the producer fsnotify itself is when the kernel reports IN_Q_OVERFLOW or a failed read).
+func (e *env) watcherErrorChan() (ch chan error, why string) {
+	defer func() {
+		if rec := recover(); rec != nil {
+			ch, why = nil, fmt.Sprint("reflection on the secrets watcher failed: ", rec)
+		}
+	}()
+	v := reflect.ValueOf(e.secretW)
+	if !v.IsValid() || v.Kind() != reflect.Pointer || v.Elem().Kind() != reflect.Struct {
+		return nil, fmt.Sprintf("secrets watcher is a %T", e.secretW)
+	}
+	for i := 0; i < v.Elem().NumField(); i++ {
+		f := v.Elem().Field(i)
+		if f.Type() != reflect.TypeOf((*fsnotify.Watcher)(nil)) || f.IsNil() {
+			continue
+		}
+		fsw, _ := reflect.NewAt(f.Type(), unsafe.Pointer(f.UnsafeAddr())).Elem().Interface().(*fsnotify.Watcher)
+		if fsw != nil && fsw.Errors != nil {
+			return fsw.Errors, ""
+		}
+	}
+	return nil, fmt.Sprintf("no *fsnotify.Watcher field in %T", e.secretW)
+}
+
+// injectWatcherError delivers one error the way fsnotify does: a blocking send on the unbuffered Errors channel.
+func (e *env) injectWatcherError(kind string) (bool, string) {
+	ch, why := e.watcherErrorChan()
+	if ch == nil {
+		return false, why
+	}
+	var err error = fsnotify.ErrEventOverflow
+	if kind != "event-overflow" {
+		err = &os.PathError{Op: "read", Path: "inotify", Err: errors.New("bad file descriptor")}
+	}
+	select {
+	case ch <- err:
+		return true, ""
+	case <-time.After(10 * time.Second):
+		return false, "nobody received from the Errors channel within 10 s"
+	}
+}
+
 func (e *env) applyKS(in *inputSpec, idx int, res *inResult) (goOn bool) {
 	st := e.ks[in.Kind]
 	data := in.materialize(e.corpus)
+	if in.meta("mode") == "watcher-error" {
+		// the notification mechanism itself reports an error (queue overflow after a burst of writes, failed read);
+		// the valid change that follows - and its sentinel - must still be picked up
+		e.journalW(jEntry{Seq: in.Seq, Index: idx, Kind: in.Kind, Step: "apply", Note: "error '" + in.meta("error") + "' sent on the Errors channel of the secrets watcher's fsnotify instance"})
+		n0 := e.tap.watcherErrors()
+		ok, why := e.injectWatcherError(in.meta("error"))
+		if !ok {
+			res.Problems = append(res.Problems, problem{Sig: "inconclusive:watcher-error-not-injected", What: why})
+			return true
+		}
+		res.WatcherErrors++
+		deadline := time.Now().Add(2 * time.Second)
+		for e.tap.watcherErrors() == n0 && time.Now().Before(deadline) {
+			time.Sleep(200 * time.Microsecond)
+		}
+		if e.tap.watcherErrors() > n0 {
+			res.Notes = append(res.Notes, "watcher-error-logged")
+		}
+	}
 	if in.meta("mode") == "remove-recreate" {
 		e.journalW(jEntry{Seq: in.Seq, Index: idx, Kind: in.Kind, Step: "apply", Note: "file removed, then created again with a valid store"})
 		_ = os.Remove(st.path)
@@ -826,10 +909,63 @@ func (e *env) writeRules(in *inputSpec, idx int, data []byte, stepName, marker s
 			e.ruleMarker = marker
 		case e.ruleMarker != "" && first(e.markerUp(e.ruleMarker)):
 		default:
+			// No rejection was logged and the rule set loaded from this file before no longer answers: the content
+			// replaced it or unloaded it. That is what a rule set (whatever its routes) and a file without any content
+			// may do, nothing else.
+			if e.ruleMarker != "" {
+				res.ShapeChecks++
+				switch shape, detail := ruleFileShape(s.after); shape {
+				case "no-document":
+					res.Notes = append(res.Notes, "emptied-rule-file-unloaded")
+				case "rule-set-shaped":
+					res.Notes = append(res.Notes, "rule-set-replaced-by-one-without-the-marker-route")
+				default:
+					res.Problems = append(res.Problems, problem{Sig: "unloaded-by-content-that-is-no-rule-set:rules",
+						What:   "the rule file holds a document that is not a rule set (" + detail + "); no rejection was logged and the rule set previously loaded from that file (marker " + e.ruleMarker + ") no longer matches",
+						Detail: map[string]any{"step": j.Step, "content": witness(s.after), "content_is": detail, "previous_marker": e.ruleMarker}})
+				}
+			}
 			e.ruleMarker = ""
 		}
 	}
 	return true
+}
+
+// ruleFileShape is the harness' own, deliberately coarse judgement of a rule file: "no-document" (nothing but blanks
+// and comments: the documented "empty" source), "rule-set-shaped" (first document is a mapping with a non-empty `rules`
+// list - it may or may not be valid), anything else cannot be a rule set.
+func ruleFileShape(content []byte) (shape, detail string) {
+	var doc yaml.Node
+	if err := yaml.NewDecoder(bytes.NewReader(content)).Decode(&doc); err != nil {
+		if errors.Is(err, io.EOF) {
+			return "no-document", "no YAML document"
+		}
+		return "not-a-rule-set", "not parsable: " + trunc(err.Error(), 120)
+	}
+	root := &doc
+	for (root.Kind == yaml.DocumentNode || root.Kind == yaml.AliasNode) && (len(root.Content) > 0 || root.Alias != nil) {
+		if root.Kind == yaml.AliasNode {
+			root = root.Alias
+		} else {
+			root = root.Content[0]
+		}
+	}
+	if root.Kind != yaml.MappingNode {
+		return "not-a-rule-set", fmt.Sprintf("the document is a %s %q, not a mapping", root.ShortTag(), trunc(root.Value, 40))
+	}
+	for i := 0; i+1 < len(root.Content); i += 2 {
+		k, v := root.Content[i], root.Content[i+1]
+		if k.Value == "<<" {
+			return "rule-set-shaped", "merge key at the top level"
+		}
+		for v.Kind == yaml.AliasNode && v.Alias != nil {
+			v = v.Alias
+		}
+		if k.Value == "rules" && v.Kind == yaml.SequenceNode && len(v.Content) > 0 {
+			return "rule-set-shaped", ""
+		}
+	}
+	return "not-a-rule-set", fmt.Sprintf("a mapping with %d keys and no non-empty `rules` list", len(root.Content)/2)
 }
 
 func first(a, _ bool) bool { return a }
